@@ -122,7 +122,9 @@ def glob_children(schema, topology, parent, snapshot):
     return out
 
 
-def _globs(schema, topo, base, snapshot, out):
+def _globs(schema, topo, base, snapshot, out, rests=None):
+    """rests (optional): {store path: [renaming dictionary of each glob
+    port over that store]}."""
     for key, sub in schema.items():
         if key in SCHEMA_KEYS:
             continue
@@ -130,8 +132,14 @@ def _globs(schema, topo, base, snapshot, out):
             t = topo.get('*', ()) if isinstance(topo, dict) else ()
             if isinstance(t, dict):
                 store = normalize(base + tuple(t.get('_path', ())))
+                rest = {k: v for k, v in t.items() if k != '_path'}
             else:
                 store = normalize(base + tuple(t))
+                rest = {}
+            if store is None:
+                continue
+            if rests is not None:
+                rests.setdefault(store, []).append(rest)
             node = get_in(snapshot, store)
             kids = [k for k, v in node.items()
                     if v != '<process>'] if isinstance(node, dict) else []
@@ -144,9 +152,10 @@ def _globs(schema, topo, base, snapshot, out):
             nbase = normalize(base + tuple(t['_path'])) if '_path' in t \
                 else base
             rest = {k: v for k, v in t.items() if k != '_path'}
-            _globs(sub, rest, nbase, snapshot, out)
+            _globs(sub, rest, nbase, snapshot, out, rests)
         else:
-            _globs(sub, {}, normalize(base + tuple(t)), snapshot, out)
+            _globs(sub, {}, normalize(base + tuple(t)), snapshot, out,
+                   rests)
 
 
 def get_in(tree, path):
